@@ -4830,6 +4830,8 @@ func (a *Association) onRackAfterSACK( // nolint:gocognit,cyclop,gocyclo
 		}
 
 		if marked {
+			a.onRackLossLocked()
+
 			// loss detected during active TLR so we must reduce burst
 			if a.tlrActive {
 				a.tlrApplyAdditionalLossLocked(currTime)
@@ -4944,6 +4946,8 @@ func (a *Association) onRackTimeoutLocked() { //nolint:cyclop
 	}
 
 	if marked {
+		a.onRackLossLocked()
+
 		// loss detected during active TLR so we must reduce burst
 		if a.tlrActive {
 			a.tlrApplyAdditionalLossLocked(time.Now())
@@ -4951,6 +4955,22 @@ func (a *Association) onRackTimeoutLocked() { //nolint:cyclop
 
 		a.awakeWriteLoop()
 	}
+}
+
+// onRackLossLocked is the congestion response to a loss detected by RACK
+// (RFC 8985 section 7.1: the same response as for fast retransmit): enter fast
+// recovery, once per window of data, exactly as the third miss indication does.
+// The caller should hold the lock.
+func (a *Association) onRackLossLocked() {
+	if a.inFastRecovery {
+		return
+	}
+
+	a.inFastRecovery = true
+	a.fastRecoverExitPoint = a.myNextTSN - 1
+	a.ssthresh = max32(a.CWND()/2, 4*a.MTU())
+	a.setCWND(a.ssthresh)
+	a.partialBytesAcked = 0
 }
 
 func (a *Association) onPTOTimer() {
